@@ -78,6 +78,9 @@ type C10Case struct {
 	GapMs          []int64 `json:"gap_ms,omitempty"`
 	Par            int     `json:"par,omitempty"`
 	ParFailFirst   bool    `json:"par_fail_first,omitempty"`
+	// ParGzip: the concurrent requests are gzip bodies; before them one ordinary gzip request and one that announces
+	// gzip without being it (400) go through the same handler
+	ParGzip bool `json:"par_gzip,omitempty"`
 	PSync          float64 `json:"p_sync,omitempty"`
 	Schedule       []int   `json:"schedule,omitempty"`
 }
@@ -538,6 +541,12 @@ func RunC10(t *testing.T, c *C10Case) *RunResult {
 			}
 			rec := httptest.NewRecorder()
 			h.ServeHTTP(rec, req)
+			// the request is over: every ticket and count the ingestor took for it must be back (they are never given
+			// back later, and MaxInflightBulks such requests make the proxy refuse every bulk)
+			if tk, total, infl := ing.VerifIdle(); tk != total || infl != 0 {
+				violate("ticket_leak", "delivery %d (status %d): after the request the ingestor holds %d of %d rate-limit tickets and counts %d requests in flight", di, rec.Code, tk, total, infl)
+				return
+			}
 			if !c.SharedIngestor {
 				ing.Stop()
 			}
@@ -668,6 +677,14 @@ func runC10Par(s *verifsim.Sim, c *C10Case, mp bulk.MappingProvider, violate fun
 		body := cc.body(now)
 		rd := &chunkReader{data: body, rng: verifsim.NewSplitMix(c.Seed ^ uint64(i+1)*0x9e37), mode: mode, errAt: c.effErrAt(body), withData: c.ErrWithData, yield: yield}
 		req := httptest.NewRequest(http.MethodPost, "/_bulk", rd)
+		if c.ParGzip {
+			var zb bytes.Buffer
+			zw := gzip.NewWriter(&zb)
+			zw.Write(body)
+			zw.Close()
+			rd.data, rd.errAt = zb.Bytes(), 0
+			req.Header.Set("Content-Encoding", "gzip")
+		}
 		rec := httptest.NewRecorder()
 		h.ServeHTTP(rec, req)
 		items := 0
@@ -682,6 +699,19 @@ func runC10Par(s *verifsim.Sim, c *C10Case, mp bulk.MappingProvider, violate fun
 		}
 		want, ok, ambiguous := cc.reference(body, now)
 		return rec.Code, items, want, ok, ambiguous
+	}
+	if c.ParGzip {
+		send(200, 0, false)
+		client.docs, client.perCall, client.calls = nil, nil, 0
+		bad := httptest.NewRequest(http.MethodPost, "/_bulk", &chunkReader{data: []byte(`{"index":{}}` + "\n" + `{"k0":"plain"}` + "\n"), rng: verifsim.NewSplitMix(3), mode: 0})
+		bad.Header.Set("Content-Encoding", "gzip")
+		brec := httptest.NewRecorder()
+		h.ServeHTTP(brec, bad)
+		res.Fired["par_not_gzip_prelude"]++
+		if brec.Code == 200 || len(client.docs) > 0 {
+			violate("accepted_bad_request", "a body announced as gzip that is not gzip must be rejected and store nothing: status %d, %d documents", brec.Code, len(client.docs))
+			return
+		}
 	}
 	if c.ParFailFirst {
 		client.fail = true
@@ -717,6 +747,10 @@ func runC10Par(s *verifsim.Sim, c *C10Case, mp bulk.MappingProvider, violate fun
 		}
 	}
 	res.Fired["par_requests"] += c.Par
+	if tk, total, infl := ing.VerifIdle(); tk != total || infl != 0 {
+		violate("ticket_leak", "concurrent phase: after all requests the ingestor holds %d of %d rate-limit tickets and counts %d requests in flight", tk, total, infl)
+		return
+	}
 	if client.err != "" {
 		violate("payload", "concurrent phase: %s", client.err)
 		return
@@ -939,6 +973,9 @@ func GenC10(seed uint64, thorough bool, maxDoc int) *C10Case {
 		}
 		c.ParFailFirst = r.Bool(0.5)
 		c.PSync = []float64{0.1, 0.3, 0.6}[r.Intn(3)]
+		if rz := verifsim.NewSplitMix(seed ^ 0x671b).Split("c10-pargzip"); c.ErrorAt == 0 && c.TruncateAt == 0 && rz.Bool(0.4) {
+			c.ParGzip = true
+		}
 	}
 	return c
 }
